@@ -25,6 +25,7 @@ func init() {
 
 func runC12(c *report.Ctx) {
 	p := c.P
+	ruleGapOracleIsTheChain(c)
 	na := fn(c, pkgKeystore, "AddrManager", "nextAddresses")
 	updCN := fn(c, pkgKeystore, "", "updateChildNum")
 	putPK := fn(c, pkgKeystore, "", "putEncryptedPubKey")
